@@ -309,3 +309,22 @@ MANIFEST_TEXT['C14'] = dict(
     level_text='getMibVariants: every path x every name up to the bound decided by z3; readers: solver-exhaustive over the modelled tree/archive shapes.',
     level_note='Trusted: z3, CrossHair; the FS/ZIP models.')
 _finalise()
+
+PROPS['C20'] = dict(
+    modules=['harness.c20_scripts'], level='other', files=['scripts/mibdump.py', 'scripts/mibcopy.py'],
+    explanation=XH + '. C20 (kernel level): statement fragments cut out of the scripts\' ASTs (report/exit-code tail, option loop, getopt block of '
+                'mibdump; copy loop of mibcopy) executed symbolically in a namespace of stubs.',
+    functions=['scripts/mibdump.py: else-branch of the try around compile() (report + exit code), `for opt in opts` loop, getopt try-block, `if not inputMibs`',
+               'scripts/mibcopy.py: `for srcDirectory in inputMibs` loop + shortenPath'],
+    stubs=['sys (recording stderr, exit raises), os.walk/os.path, getMibRevision, shutil.copy, datetime.fromtimestamp (revisions are unbounded symbolic ints)'],
+    bounds='<=3 modules / visits, 2 module names, one or two options',
+    outside=['process start and real getopt beyond the listed command lines', 'real file systems', 'component wiring per destination format',
+             '"files on disk are exactly the modules reported" = composition of C07 (status <=> successful putData) and C13 (successful putData <=> complete file), stated not re-proved',
+             'mibcopy when shutil.copy fails'],
+    assumptions=['revisions are totally ordered'])
+MANIFEST_TEXT['C20'] = dict(
+    technique='CrossHair symbolic execution of statement fragments extracted from the scripts\' ASTs with stubbed environment',
+    level_text='Partial, kernel level: exit code and report lines for all status assignments of <=3 modules; option handling; mibcopy keeps the latest '
+               'revision for every visiting order of <=3 files with unbounded revisions.',
+    level_note='Trusted: CrossHair/z3; fragment location is structural (a missing fragment is a harness error). Whole-process behaviour is outside.')
+_finalise()
